@@ -196,7 +196,7 @@ const FILLERS: &[&str] = &["<!--c-->", "<!-- </a> -->", "<?pi d?>", "<!---->", "
 const BLANKS: &[&str] = &[" ", "\n", "\t", "\n  ", " \r\n "];
 
 /// apply one rewrite; returns None when it is not applicable to this document
-fn apply(ty: Ty, doc: &str, rw: &Rw) -> Option<String> {
+pub fn apply(ty: Ty, doc: &str, rw: &Rw) -> Option<String> {
     let bytes = doc.as_bytes();
     let toks = refxml::lex(bytes);
     if toks.iter().any(|l| matches!(l.tok, Tok::ErrSyntax(_))) {
@@ -481,7 +481,7 @@ pub fn check(c: &Case) -> Verdict {
     }
 }
 
-fn rw_strategy() -> impl Strategy<Value = Rw> {
+pub fn rw_strategy() -> impl Strategy<Value = Rw> {
     (0u8..12, any::<u16>(), any::<u16>()).prop_map(|(kind, site, arg)| Rw { kind, site, arg })
 }
 
